@@ -3025,6 +3025,55 @@ static void PrintSymbolList_PNode(PTree Tree, void* pData) {
     }
 }
 
+#ifdef ASL_VERIF
+/* verification hook: 64 bit hash over all symbols (name, section, type, value) of the
+   global and the local symbol tree in sorted order; used to detect pass cycles */
+
+static void VerifHash_Bytes(LargeWord* pHash, void const* pData, size_t Len) {
+    unsigned char const* p = (unsigned char const*)pData;
+    size_t               z;
+
+    for (z = 0; z < Len; z++) {
+        *pHash = (*pHash ^ p[z]) * (LargeWord)0x100000001b3ull;
+    }
+}
+
+static void VerifHash_Node(PTree Tree, void* pData) {
+    PSymbolEntry Node  = (PSymbolEntry)Tree;
+    LargeWord*   pHash = (LargeWord*)pData;
+    int          Typ   = (int)Node->SymWert.Typ;
+
+    VerifHash_Bytes(pHash, Tree->Name, strlen(Tree->Name) + 1);
+    VerifHash_Bytes(pHash, &Tree->Attribute, sizeof(Tree->Attribute));
+    VerifHash_Bytes(pHash, &Typ, sizeof(Typ));
+    switch (Node->SymWert.Typ) {
+    case TempInt:
+        VerifHash_Bytes(
+                pHash, &Node->SymWert.Contents.Int, sizeof(Node->SymWert.Contents.Int));
+        break;
+    case TempFloat:
+        VerifHash_Bytes(
+                pHash, &Node->SymWert.Contents.Float,
+                sizeof(Node->SymWert.Contents.Float));
+        break;
+    case TempString:
+        VerifHash_Bytes(
+                pHash, Node->SymWert.Contents.str.p_str, Node->SymWert.Contents.str.len);
+        break;
+    default:
+        break;
+    }
+}
+
+LargeWord asl_verif_symbol_hash(void) {
+    LargeWord Hash = (LargeWord)0xcbf29ce484222325ull;
+
+    IterTree((PTree)FirstSymbol, VerifHash_Node, &Hash);
+    IterTree((PTree)FirstLocSymbol, VerifHash_Node, &Hash);
+    return Hash;
+}
+#endif /* ASL_VERIF */
+
 void PrintSymbolList(void) {
     int          ActPageWidth;
     TListContext Context;
